@@ -127,3 +127,12 @@ CHECKS["C15"] = _c(
     "Trusted: aws-smithy-eventstream's MessageFrameDecoder and the reference XML reader. Error messages stay below the 64 KiB limit of a header value.",
     "DESIGN.md 3/C15",
 )
+
+CHECKS["C07"] = _c(
+    "exploration",
+    "runtime monitoring: online check of a trace specification over the event log of recording S3Auth / S3Route / S3Access (generic + typed hooks generated from the current trait) / S3 implementations, over the complete configuration product",
+    "harness (raw request driver; corpus captured from aws-sdk-s3)",
+    "One SDK-encoded request per operation is re-issued in 13 request classes (anonymous; valid V4 header / presigned, V2 header / presigned; each with a broken signature; unknown key; duplicated and malformed Authorization) plus valid and invalid POST forms, under every combination of access hook {none, allow, deny, deny-by-operation, deny-in-typed-hook}, custom route {none, matching, non-matching}, host parser {none, single} and provider {configured, absent}; the event log must satisfy: lookup < route match < check < typed hook < backend, every event shows exactly the verified signer (or no credentials), nothing follows a denial, the denial's code and status are the response's, the backend runs iff approved, the route handler runs iff the identity was verified and its check passed, and without a provider every signature-presenting request is refused with no event. The stated product is enumerated completely in both tiers.",
+    "Trusted: the recording trait implementations (they only append to a mutex-protected log) and the reference signers validated by C05/C06/C10/C11. Duplicated Authorization is specified only as 'never authenticated'.",
+    "DESIGN.md 3/C07",
+)
